@@ -217,6 +217,12 @@ def publish_case(ctx, case, idx, stats):
     env = {'bogus': b'bogus', 'nameX': b'another name.bin', 'keyX': b'00112233445566778899aabbccddeeff',
            'sfnX': b'another_name.bin', 'hX': hashlib.sha384(b'no such blob').hexdigest().encode(),
            'ivX': b'ffeeddccbbaa99887766554433221100'}
+    # the tampered suggested name: another name, or the committed one with something a file-name sanitiser would take out again
+    # (the stream hash commits to the name as published, so every one of these must be refused)
+    sfn = desc.suggested_file_name or 'x'
+    env['sfnX'] = [b'another_name.bin', (' ' + sfn).encode(), (sfn + '.').encode(), (sfn[:1] + '/' + sfn[1:]).encode(),
+                   (sfn[:1] + '\x00' + sfn[1:]).encode(), (sfn[:1] + '\x01' + sfn[1:]).encode(), (sfn[:1] + ':' + sfn[1:]).encode(),
+                   (sfn + ' ').encode(), (sfn[:1] + '\\' + sfn[1:]).encode()][idx % 9]
     offset = 0
     plain_ok = True
     for i, b in enumerate(desc.blobs):
@@ -417,8 +423,11 @@ def tamper_case(ctx, case, pub, stats):
                       f'a descriptor tampered by {tkey} (blob index {t["i"]}) loads; the specification refuses it at '
                       f'"{case["verdict"]}"; {pub.where}', dict(pub.replay, tamper=t, verdict=case['verdict'], sd_blob=raw.decode('latin-1')))
     elif not expect_refuse and not ok:
-        # a consistent descriptor (positive control for the tamper leg): the model of Load has drifted from the code
-        raise MachineryError(f'model drift: Load accepts {tkey} (flen {case["flen"]}, i={t["i"]}) but the loader refuses it: {info}')
+        # a CONSISTENT descriptor (the tamper was re-committed) that the loader refuses: the property does not ask for it to load
+        # (only published descriptors must), so a stricter loader is spec drift, not a violation
+        stats['drift_consistent_refused'] = stats.get('drift_consistent_refused', 0) + 1
+        if stats['drift_consistent_refused'] == 1:
+            print(f'NOTE: spec drift (C02): the loader refuses a consistent re-committed descriptor ({tkey}, flen {case["flen"]}): {info}', flush=True)
     if stats['tam'] % 600 == 0:
         ctx.sample({'tamper': tkey, 'blob_index': t['i'], 'file_bytes': case['flen'], 'spec_verdict': case['verdict'],
                     'real': 'accepted' if ok else f'refused ({info})'}, cap=14)
@@ -430,6 +439,10 @@ def tamper_case(ctx, case, pub, stats):
 TOK = {'a': 'a', 'dot': '.', 'sp': ' ', 'tab': '\t', 'slash': '/', 'bslash': '\\', 'nul': '\x00', 'CON': 'CON', 'COM1': 'COM1',
        'long': 'a' * 300}
 C0_REST = [chr(c) for c in range(1, 0x20) if c != 9]      # what the token "ctl" stands for (tab has its own token)
+# other spellings of the harmless token "a": characters that are not forbidden themselves but have forbidden relatives
+# (compatibility forms of the separators, composed / decomposed letters, fullwidth forms, bidi and format characters)
+A_ALSO = ['\uff0f', '\uff3c', '\ufe68', '\u2100', '\u2101', '\u2105', '\u2106', '\u2215', '\u2044', '\u29f8', '\u29f5', '\u00e9', 'e\u0301',
+          '\uff43', '\u202e', '\u200b', '\ufeff', '\U0001f600', '\u3000', '\u2024', '\uff0e', '\uff1a']
 
 
 class NameRunner:
@@ -457,6 +470,10 @@ class NameRunner:
                 self.batch.append((''.join(ch if t == 'ctl' else TOK[t] for t in toks), classes))
         else:
             self.batch.append((''.join(TOK[t] for t in toks), classes))
+            if 'a' in toks:
+                alt = A_ALSO[self.roll % len(A_ALSO)]
+                self.roll += 1
+                self.batch.append((''.join(alt if t == 'a' else TOK[t] for t in toks), classes))
         if len(self.batch) >= 2000:
             self.flush()
 
